@@ -13,6 +13,9 @@ new key; otherwise the shared implementation is used as it is):
  * `"sub_sets": [[ids…] | null, …]` on a parent: the sub-handlers it registers in its n-th invocation (null / beyond
    the list = all of them): a parent whose set of children changes between the passes.
 
+Registrations: `"same_fn": true` — all the registrations of one id share ONE function object (stacked decorators on one
+function, as in user code; kopf de-duplicates by (function, id)); the shared builder makes one function per registration.
+
 Settings: `"progress_storage": {"kind": "annotations"|"status"|"multi"|"smart", "prefix": …, "name": …}` builds
 `settings.persistence.progress_storage` for every incarnation (default: kopf's own default).
 
@@ -48,6 +51,16 @@ def uses_new_features(h: dict, top: bool = True) -> bool:
 
 
 class Observer02(observe.Observer):
+
+    def make_handler(self, h: dict) -> Any:
+        # scenario key `"same_fn": true` — ONE function object for all the registrations of one id (stacked decorators,
+        # as in user code): kopf de-duplicates handlers by (function, id); the script is the first registration's
+        if self.sim.sc.get("same_fn") and h["kind"] in ("create", "update", "delete", "resume", "field"):
+            cache = self.__dict__.setdefault("_fn_by_id", {})
+            if h["id"] not in cache:
+                cache[h["id"]] = super().make_handler(h)
+            return cache[h["id"]]
+        return super().make_handler(h)
 
     def _make_plain(self, h: dict) -> Any:
         if h.get("kind") != "sub" and not uses_new_features(h):
@@ -173,8 +186,13 @@ def installed2(obs: observe.Observer) -> Iterator[None]:
         cause, registry, memory = kw["cause"], kw["registry"], kw["memory"]
         extra: dict[str, Any] = {}
         try:
-            extra["raw_selected"] = [str(h.id) for h in registry._changing.get_handlers(cause=cause)]
-            extra["raw_initial"] = sorted({str(h.id) for h in registry._changing.get_handlers(cause=cause) if h.initial})
+            raw = list(registry._changing.get_handlers(cause=cause))
+            extra["raw_selected"] = [str(h.id) for h in raw]
+            extra["raw_initial"] = sorted({str(h.id) for h in raw if h.initial})
+            # the gates of the handlers SELECTED (after the de-duplication by function & id): with one function stacked
+            # under one id the owned handlers keep the first registration only, the selected one is the cause's own
+            extra["selected_gates"] = [{"id": str(h.id), "reason": h.reason.value if h.reason is not None else None,
+                                        "initial": bool(h.initial)} for h in raw]
         except Exception as e:  # noqa: BLE001
             extra["raw_selected_error"] = repr(e)
         extra["resumed_before"] = sorted(map(str, getattr(memory, "resumed_handlers", ()) or ()))
